@@ -28,6 +28,23 @@ CONFIG = {
         trivial=r"^(0|1|-|0{16}|f{16}|0{16} 0{16}|f{16} f{16})$",
         trusted_base=["Go integer semantics as modelled in Model/Bits.lean"],
     ),
+    "C06": dict(
+        level_text="Kernel-checked Lean theorems (Props/C06.lean): transmit layout of every frame, flag/ID/length/data decoding of every one of the 2^128 blocks, error-frame fields at the linux/can/error.h offsets, validation iff, and decode(encode f) = f for every valid frame; the model is compared with the real Transmitter/Receiver (public API, recording net.Conn / scripted reader) on all 2^11 standard IDs, structured and random extended IDs and blocks on every run; flag/mask constants cross-checked against golang.org/x/sys/unix.",
+        level_note="Trusted: Lean kernel; Model/Frame.lean validated by correspondence; the byte<->BitVec 128 conversion of the driver; kernel ABI constants transcribed by hand (cross-checked with x/sys/unix).",
+        level="proof", exhaustive=True,
+        exhaustive_what="all 2^11 standard IDs; all 8 flag combinations x 37 ID patterns x dlc classes for received blocks; Validate for every length 0..255",
+        trivial=r"^(ok|err|-)$",
+        trusted_base=["Model/Frame.lean: wire block as BitVec 128 (byte k = bits 8k..8k+7)", "linux/can.h, linux/can/error.h constants transcribed by hand, cross-checked against x/sys/unix at run time"],
+    ),
+    "C07": dict(
+        level_text="Kernel-checked Lean theorems (Props/C07.lean), by induction over the read script: for every stream and every segmentation the receiver yields exactly the floor(n/16) blocks of the concatenation in order, a read error ends reception after the frames completed before it, EOF is silent, transmit is one write with the interceptor after success; the model of bufio.Scanner+scanFrames is compared with the real Receiver over scripted io.Readers (every constant chunk size 1..64, all 2^(n-1) cut sets of short streams, random partitions, error injection at every read index) on every run.",
+        level_note="Trusted: Lean kernel; Model/BufScanner.lean is a model of bufio.Scanner (stdlib) restricted to scanFrames, validated by correspondence only; buffer growth and the 100-empty-reads rule are outside the model.",
+        level="proof", exhaustive=True,
+        exhaustive_what="every constant chunk size 1..64; all cut sets of streams of 1,15,16,17 (quick) and 18 (thorough) bytes",
+        trivial=r"^n=0 .*$",
+        rule="scripts are generated per the generator in harness/internal/ops/socketcan.go; a case counts as non-trivial when at least one frame is delivered",
+        trusted_base=["bufio.Scanner (stdlib) is modelled, not verified"],
+    ),
     "C08": dict(
         level_text="Kernel-checked Lean theorems (Props/C08.lean): descriptor (un)marshal functions are the C01/C02 functions of the descriptor's layout (inheriting their bit-level specs), exact closed-form bounds for every length 1..64, saturated casts equal clamping to those bounds for every int64/uint64 argument, float signals move exactly the 32-bit pattern; model compared with pkg/descriptor on all 4160 geometries, every length and boundary/random arguments on every run.",
         level_note="Trusted: Lean kernel; Model/Signal.lean + Model/Bits.lean validated by correspondence; hardware float32<->float64 conversions (exactly representable values only are exercised); harness and driver.",
